@@ -39,10 +39,14 @@ func (b *Buffer) Put(key, value []byte) {
 	b.mu.Lock()
 	defer b.mu.Unlock()
 
-	// Store in the operations map - skiplist handles defensive copying
+	// Capture key and value now: the caller may reuse its buffers before commit.
+	// A put always carries a non-nil value (nil marks a deletion).
+	keyCopy := append([]byte(nil), key...)
+	valueCopy := make([]byte, len(value))
+	copy(valueCopy, value)
 	b.operations[string(key)] = &Operation{
-		Key:      key,
-		Value:    value,
+		Key:      keyCopy,
+		Value:    valueCopy,
 		IsDelete: false,
 	}
 }
@@ -52,9 +56,9 @@ func (b *Buffer) Delete(key []byte) {
 	b.mu.Lock()
 	defer b.mu.Unlock()
 
-	// Store in the operations map - skiplist handles defensive copying
+	// Capture the key now: the caller may reuse its buffer before commit
 	b.operations[string(key)] = &Operation{
-		Key:      key,
+		Key:      append([]byte(nil), key...),
 		Value:    nil,
 		IsDelete: true,
 	}
